@@ -12,7 +12,7 @@ namespace Vivid.ActorSys
 def mail (x : Ctx) : List Env := x.sysQ ++ x.userQ ++ x.stash
 
 theorem mem_mail {x : Ctx} {e : Env} : e ∈ mail x ↔ e ∈ x.sysQ ∨ e ∈ x.userQ ∨ e ∈ x.stash := by
-  simp [mail, List.mem_append, or_assoc]
+  simp [mail, List.mem_append]
 
 def isDL : Msg → Bool
   | .deadLetter _ _ _ => true
@@ -227,5 +227,918 @@ theorem ext_deadLetter {s : Sys} (e : Env) (hv : Valid s) (hid : ∀ i, carries 
 
 theorem held_deadLetter (s : Sys) (e : Env) (i : Nat) (h : carries i e = true) : Held i (deadLetter s e) := by
   rw [deadLetter_eq]; exact held_enqueue s 0 _ i (by rw [carries_dlEnv]; exact h)
+
+def targetOK (n : Nat) : Target → Prop
+  | .own c => c < n
+  | _ => True
+
+theorem lookup_mem {α β : Type} [BEq α] [LawfulBEq α] (l : List (α × β)) (a : α) (b : β) (h : l.lookup a = some b) :
+    (a, b) ∈ l := by
+  induction l with
+  | nil => simp at h
+  | cons e t ih =>
+    obtain ⟨q, d⟩ := e
+    simp only [List.lookup] at h
+    split at h
+    · rename_i heq
+      have : a = q := by simpa using heq
+      cases h; subst this; simp
+    · exact List.mem_cons_of_mem _ (ih h)
+
+/-- `resolve` keeps the state well-formed (it may fill a ref-object cache from the registry) and
+names an existing context. -/
+theorem resolve_ok {s : Sys} (t : Target) (hv : Valid s) (ht : targetOK s.n t) :
+    Valid (resolve s t).1 ∧ (resolve s t).1.n = s.n ∧ (resolve s t).1.ctx = s.ctx ∧
+    (resolve s t).1.nextEnv = s.nextEnv ∧ (resolve s t).1.deadLetters = s.deadLetters ∧
+    ∀ c, (resolve s t).2 = some c → c < s.n := by
+  cases t with
+  | own c => exact ⟨hv, rfl, rfl, rfl, rfl, fun d hd => by cases hd; exact ht⟩
+  | nobody => exact ⟨hv, rfl, rfl, rfl, rfl, fun d hd => by cases hd; exact hv.pos⟩
+  | path p =>
+    simp only [resolve]
+    split
+    · exact ⟨hv, rfl, rfl, rfl, rfl, fun d hd => by cases hd; exact hv.pos⟩
+    · split
+      · rename_i c hc
+        exact ⟨hv, rfl, rfl, rfl, rfl, fun d hd => by cases hd; exact hv.reg _ (lookup_mem _ _ _ hc)⟩
+      · exact ⟨hv, rfl, rfl, rfl, rfl, fun d hd => by cases hd⟩
+  | refobj r =>
+    simp only [resolve]
+    split
+    · exact ⟨hv, rfl, rfl, rfl, rfl, fun d hd => by cases hd; exact hv.pos⟩
+    · rename_i p c hc
+      exact ⟨hv, rfl, rfl, rfl, rfl, fun d hd => by cases hd; exact hv.refs _ (lookup_mem _ _ _ hc) c rfl⟩
+    · split
+      · exact ⟨hv, rfl, rfl, rfl, rfl, fun d hd => by cases hd; exact hv.pos⟩
+      · split
+        · rename_i c hc
+          have hcn : c < s.n := hv.reg _ (lookup_mem _ _ _ hc)
+          refine ⟨⟨hv.pos, hv.ctx, hv.reg, ?_, hv.subs, hv.dls⟩, rfl, rfl, rfl, rfl, fun d hd => by cases hd; exact hcn⟩
+          intro e he d hd
+          simp only [List.mem_cons] at he
+          rcases he with he | he
+          · rw [he] at hd; cases hd; exact hcn
+          · exact hv.refs e (List.mem_filter.mp he).1 d hd
+        · exact ⟨hv, rfl, rfl, rfl, rfl, fun d hd => by cases hd⟩
+
+theorem valid_bump {s : Sys} (hv : Valid s) : Valid { s with nextEnv := s.nextEnv + 1 } :=
+  ⟨hv.pos, fun c => (hv.ctx c).mono (Nat.le_refl _) (Nat.le_succ _), hv.reg, hv.refs, hv.subs,
+   fun i hi => Nat.lt_succ_of_lt (hv.dls i hi)⟩
+
+theorem carries_user (i : Nat) (e : Env) (k : Nat) (hm : e.msg = .user k) : carries i e = (e.id == i) := by
+  simp [carries, hm]
+
+theorem carries_other (i : Nat) (e : Env) (h1 : ∀ k, e.msg ≠ .user k) (h2 : isDL e.msg = false) : carries i e = false := by
+  unfold carries
+  cases hm : e.msg <;> simp_all [isDL]
+
+theorem ext_bump_enqueue {s1 : Sys} (hv1 : Valid s1) (c : Cid) (hc : c < s1.n) (e : Env)
+    (he : EnvOK s1.n (s1.nextEnv + 1) c e) (hcar : carries s1.nextEnv e = true) :
+    Ext s1 (enqueue { s1 with nextEnv := s1.nextEnv + 1 } c e) := by
+  have h := ext_enqueue (s := { s1 with nextEnv := s1.nextEnv + 1 }) c e (valid_bump hv1) hc he
+  refine ⟨h.valid, h.n_le, Nat.le_trans (Nat.le_succ _) h.next_le, h.keep, h.dl, fun i hlo hhi => ?_⟩
+  have : i = s1.nextEnv := by
+    have : i < s1.nextEnv + 1 := hhi
+    omega
+  rw [this]; exact held_enqueue _ c e _ hcar
+
+theorem ext_bump_deadLetter {s1 : Sys} (hv1 : Valid s1) (e : Env)
+    (hid : ∀ i, carries i e = true → i < s1.nextEnv + 1) (hcar : carries s1.nextEnv e = true) :
+    Ext s1 (deadLetter { s1 with nextEnv := s1.nextEnv + 1 } e) := by
+  have h := ext_deadLetter (s := { s1 with nextEnv := s1.nextEnv + 1 }) e (valid_bump hv1) hid
+  refine ⟨h.valid, h.n_le, Nat.le_trans (Nat.le_succ _) h.next_le, h.keep, h.dl, fun i hlo hhi => ?_⟩
+  have : i = s1.nextEnv := by
+    have : i < s1.nextEnv + 1 := hhi
+    omega
+  rw [this]; exact held_deadLetter _ e _ hcar
+
+theorem envOK_plain {n nx : Nat} {c : Cid} (sys : Bool) (sender : Option Cid) (m : Msg)
+    (hs : ∀ d, sender = some d → d < n) (hm : msgOK n m) (hdl : isDL m = false) (hu : ∀ k, m ≠ .user k) :
+    EnvOK n nx c { id := 0, sys := sys, sender := sender, msg := m } :=
+  ⟨hs, hm, fun _ => hdl, fun i hi => by rw [carries_other i _ hu hdl] at hi; cases hi⟩
+
+/-- `tell`: the message is enqueued at an existing context, or becomes a dead letter at the root. -/
+theorem ext_tell {s : Sys} (sys : Bool) (sender : Option Cid) (t : Target) (m : Msg) (hv : Valid s)
+    (ht : targetOK s.n t) (hs : ∀ d, sender = some d → d < s.n) (hm : msgOK s.n m) (hdl : isDL m = false) :
+    Ext s (tell s sys sender t m) := by
+  unfold tell
+  obtain ⟨hv1, hn1, hc1, hx1, hd1, hr1⟩ := resolve_ok t hv ht
+  generalize resolve s t = r at hv1 hn1 hc1 hx1 hd1 hr1
+  obtain ⟨s1, c?⟩ := r
+  simp only at hv1 hn1 hc1 hx1 hd1 hr1 ⊢
+  have h01 : Ext s s1 := ext_of_valid hv1 hn1 hc1 hx1 hd1
+  have hs1 : ∀ d, sender = some d → d < s1.n := by rw [hn1]; exact hs
+  have hm1 : msgOK s1.n m := by rw [hn1]; exact hm
+  cases m with
+  | user k =>
+    cases c? with
+    | some c =>
+      simp only
+      have hc : c < s1.n := by rw [hn1]; exact hr1 c rfl
+      refine h01.trans (ext_bump_enqueue hv1 c hc _ ⟨hs1, trivial, fun _ => rfl, fun i hi => ?_⟩ (by simp [carries]))
+      have : s1.nextEnv = i := by simpa [carries] using hi
+      omega
+    | none =>
+      simp only
+      refine h01.trans (ext_bump_deadLetter hv1 _ (fun i hi => ?_) (by simp [carries]))
+      have : s1.nextEnv = i := by simpa [carries] using hi
+      omega
+  | deadLetter x u d => simp [isDL] at hdl
+  | _ =>
+    cases c? with
+    | some c =>
+      simp only
+      have hc : c < s1.n := by rw [hn1]; exact hr1 c rfl
+      exact h01.trans (ext_enqueue c _ hv1 hc (envOK_plain sys sender _ hs1 hm1 hdl (by intro k h; cases h)))
+    | none =>
+      simp only
+      refine h01.trans (ext_deadLetter _ hv1 (fun i hi => ?_))
+      rw [carries_other i _ (by intro k h; cases h) hdl] at hi; cases hi
+
+theorem ext_tellAll {s : Sys} (ts : List Cid) (sys : Bool) (sender : Option Cid) (m : Msg) (hv : Valid s)
+    (ht : ∀ t ∈ ts, t < s.n) (hs : ∀ d, sender = some d → d < s.n) (hm : msgOK s.n m) (hdl : isDL m = false) :
+    Ext s (tellAll s sys sender ts m) := by
+  unfold tellAll
+  induction ts generalizing s with
+  | nil => exact Ext.refl hv
+  | cons t r ih =>
+    simp only [List.foldl_cons]
+    have h1 := ext_tell sys sender (.own t) m hv (ht t (by simp)) hs hm hdl
+    exact h1.trans (ih h1.valid (fun t' ht' => Nat.lt_of_lt_of_le (ht t' (by simp [ht'])) h1.n_le)
+      (fun d hd => Nat.lt_of_lt_of_le (hs d hd) h1.n_le) (msgOK_mono hm h1.n_le))
+
+theorem ext_foldl_tell {s : Sys} (ts : List Cid) (sys : Bool) (sender : Option Cid) (m : Msg) (hv : Valid s)
+    (ht : ∀ t ∈ ts, t < s.n) (hs : ∀ d, sender = some d → d < s.n) (hm : msgOK s.n m) (hdl : isDL m = false) :
+    Ext s (ts.foldl (fun acc t => tell acc sys sender (.own t) m) s) := ext_tellAll ts sys sender m hv ht hs hm hdl
+
+/-- What a handler knows about itself and the envelope it is processing. -/
+structure CurOK (s : Sys) (me : Cid) (cur : Env) : Prop where
+  self_lt : me < s.n
+  env : EnvOK s.n s.nextEnv me cur
+
+theorem CurOK.mono {s s' : Sys} {self : Cid} {cur : Env} (h : CurOK s self cur) (hn : s.n ≤ s'.n) (hx : s.nextEnv ≤ s'.nextEnv) :
+    CurOK s' self cur := ⟨Nat.lt_of_lt_of_le h.self_lt hn, h.env.mono hn hx⟩
+
+theorem CurOK.ext {s s' : Sys} {self : Cid} {cur : Env} (h : CurOK s self cur) (he : Ext s s') : CurOK s' self cur :=
+  h.mono he.n_le he.next_le
+
+theorem find_mem {α : Type} (l : List α) (p : α → Bool) (a : α) (h : l.find? p = some a) : a ∈ l := by
+  induction l with
+  | nil => simp at h
+  | cons x t ih =>
+    simp only [List.find?] at h
+    split at h
+    · cases h; simp
+    · exact List.mem_cons_of_mem _ (ih h)
+
+theorem evalTarget_ok {s : Sys} (self : Cid) (cur : Env) (spec : String) (hv : Valid s) (hc : CurOK s self cur) :
+    targetOK s.n (evalTarget s self cur spec) := by
+  unfold evalTarget
+  split
+  · exact hc.self_lt
+  · split
+    · split
+      · rename_i p hp; exact (hv.ctx self).parent p hp
+      · trivial
+    · split
+      · split
+        · rename_i c hcs; exact hc.env.sender c hcs
+        · trivial
+      · split
+        · dsimp only
+          split
+          · rename_i c hf; exact (hv.ctx self).children c (find_mem _ _ _ hf)
+          · trivial
+        · split
+          · trivial
+          · split
+            · split <;> trivial
+            · trivial
+
+theorem parentTarget_ok {s : Sys} (self : Cid) (hv : Valid s) :
+    targetOK s.n (match (s.ctx self).parent with | some p => Target.own p | none => Target.nobody) := by
+  split
+  · rename_i p hp; exact (hv.ctx self).parent p hp
+  · trivial
+
+theorem ext_failed {s : Sys} (self : Cid) (hv : Valid s) (hself : self < s.n) : Ext s (failed s self) := by
+  unfold failed
+  have h1 := ext_upd_same self (fun x => { x with paused := true }) hv (fun _ => rfl)
+  have ht : targetOK (upd s self (fun x => { x with paused := true })).n
+      (match (s.ctx self).parent with | some p => Target.own p | none => Target.nobody) := parentTarget_ok self hv
+  have h2 := ext_tell true (some self) _ (.supervise [(self, [])] []) h1.valid ht
+    (fun d hd => by cases hd; exact hself)
+    (by intro p hp; simp only [List.mem_singleton] at hp; rw [hp]; exact ⟨hself, fun t ht => by cases ht⟩) rfl
+  exact (h1.trans h2).trans (ext_say _ h2.valid)
+
+theorem ext_schedule {s : Sys} (self : Cid) (ref : String) (hv : Valid s) : Ext s (schedule s self ref) := by
+  unfold schedule
+  simp only
+  have h1 := ext_upd_same self (fun x => { x with jobs := (ref, jobKey (s.ctx self).path ref) :: x.jobs.filter (fun e => e.1 ≠ ref) }) hv (fun _ => rfl)
+  split
+  · exact h1
+  · exact h1.trans (ext_rec _ h1.valid rfl rfl rfl rfl rfl rfl rfl)
+
+theorem ext_clearJobs {s : Sys} (self : Cid) (hv : Valid s) : Ext s (clearJobs s self) := by
+  unfold clearJobs
+  have h0 : Ext s { s with jobTable := s.jobTable.filter (fun e => !((s.ctx self).jobs.map (·.2)).contains e.1) } :=
+    ext_rec _ hv rfl rfl rfl rfl rfl rfl rfl
+  exact h0.trans (ext_upd_same self (fun x => { x with jobs := [] }) h0.valid (fun _ => rfl))
+
+theorem ext_actorOf {s : Sys} (parent : Cid) (name : String) (script strat hooks : Nat) (ds : List Nat)
+    (hv : Valid s) (hp : parent < s.n) : Ext s (actorOf s parent name script strat hooks ds) := by
+  unfold actorOf
+  simp only
+  split
+  · exact ext_say _ hv
+  · split
+    · exact ext_say _ hv
+    · split
+      · exact ext_say _ hv
+      · let path := joinPath (s.ctx parent).path name
+        let nc : Ctx := { blankCtx with path := path, name := name, parent := some parent, state := .running, script := script, behaviors := [script], strat := strat, decisions := ds, hooks := hooks }
+        let s1 : Sys := { s with n := s.n + 1, ctx := fun x => if x = s.n then nc else s.ctx x, registry := (path, s.n) :: s.registry }
+        have hnc : mail nc = [] := rfl
+        have hv1 : Valid s1 := by
+          refine ⟨Nat.succ_pos _, fun c => ?_, fun e he => ?_, fun e he c hc => Nat.lt_succ_of_lt (hv.refs e he c hc),
+            fun e he => Nat.lt_succ_of_lt (hv.subs e he), hv.dls⟩
+          · by_cases hc : c = s.n
+            · have : s1.ctx c = nc := by simp [s1, hc]
+              rw [this]
+              refine ⟨fun p hpp => ?_, fun k hk => (by cases hk), fun w hw => (by cases hw),
+                fun e he => (by rw [hnc] at he; cases he), fun _ => hnc⟩
+              have : p = parent := by simpa [nc] using hpp.symm
+              rw [this]; exact Nat.lt_succ_of_lt hp
+            · have : s1.ctx c = s.ctx c := by simp [s1, hc]
+              rw [this]; exact (hv.ctx c).mono (Nat.le_succ _) (Nat.le_refl _)
+          · simp only [s1, List.mem_cons] at he
+            rcases he with he | he
+            · rw [he]; exact Nat.lt_succ_self _
+            · exact Nat.lt_succ_of_lt (hv.reg e he)
+        have h01 : Ext s s1 := by
+          refine ⟨hv1, Nat.le_succ _, Nat.le_refl _, fun c e he => ?_, fun _ h => h,
+            fun i h1 h2 => absurd h2 (Nat.not_lt.mpr h1)⟩
+          by_cases hc : c = s.n
+          · rw [hc, (hv.ctx s.n).blank (Nat.le_refl _)] at he; cases he
+          · have : s1.ctx c = s.ctx c := by simp [s1, hc]
+            rw [this]; exact he
+        have hpn : parent ≠ s.n := Nat.ne_of_lt hp
+        have hpc : s1.ctx parent = s.ctx parent := by simp [s1, hpn]
+        have h12 : Ext s1 (upd s1 parent
+            (fun x => { x with children := x.children.filter (fun k => (s.ctx k).path ≠ path) ++ [s.n] })) := by
+          have hx := hv1.ctx parent
+          apply ext_upd parent _ hv1
+          · refine ⟨hx.parent, fun k hk => ?_, hx.watchers, hx.envs, hx.blank⟩
+            simp only [List.mem_append, List.mem_singleton] at hk
+            rcases hk with hk | hk
+            · exact hx.children k (List.mem_filter.mp hk).1
+            · rw [hk]; exact Nat.lt_succ_self _
+          · intro e he; exact he
+        have h02 := h01.trans h12
+        have h23 := ext_tell true (some parent) (.own s.n) .onLaunch h02.valid (Nat.lt_succ_self s.n)
+          (fun d hd => by cases hd; exact Nat.lt_succ_of_lt hp) trivial rfl
+        have h03 := h02.trans h23
+        have h04 := h03.trans (ext_say s!"spawned:{s.n}:{path}" h03.valid)
+        split
+        · refine h04.trans (ext_tell true (some parent) (.own s.n) (.onKill false) h04.valid ?_ ?_ trivial rfl)
+          · exact Nat.lt_of_lt_of_le (Nat.lt_succ_self s.n) (Nat.le_trans h12.n_le (Nat.le_trans h23.n_le (ext_say _ h03.valid).n_le))
+          · intro d hd; cases hd
+            exact Nat.lt_of_lt_of_le (Nat.lt_succ_of_lt hp) (Nat.le_trans h12.n_le (Nat.le_trans h23.n_le (ext_say _ h03.valid).n_le))
+        · exact h04
+
+theorem enqueue_stash (s : Sys) (c : Cid) (e : Env) : ((enqueue s c e).ctx c).stash = (s.ctx c).stash := by
+  unfold enqueue; rw [upd_ctx_self]; split <;> rfl
+
+theorem enqueue_queued (s : Sys) (c : Cid) (e e' : Env)
+    (h : e' ∈ (s.ctx c).sysQ ∨ e' ∈ (s.ctx c).userQ ∨ e' = e) :
+    e' ∈ ((enqueue s c e).ctx c).sysQ ∨ e' ∈ ((enqueue s c e).ctx c).userQ := by
+  unfold enqueue; rw [upd_ctx_self]
+  split
+  · rcases h with h | h | h
+    · exact Or.inl (by simp [h])
+    · exact Or.inr h
+    · exact Or.inl (by simp [h])
+  · rcases h with h | h | h
+    · exact Or.inl h
+    · exact Or.inr (by simp [h])
+    · exact Or.inr (by simp [h])
+
+theorem foldl_enqueue_facts (self : Cid) (l : List Env) :
+    ∀ s, Valid s → self < s.n → (∀ e ∈ l, EnvOK s.n s.nextEnv self e) →
+      Ext s (l.foldl (fun acc e => enqueue acc self e) s) ∧
+      (l.foldl (fun acc e => enqueue acc self e) s).nextEnv = s.nextEnv ∧
+      ((l.foldl (fun acc e => enqueue acc self e) s).ctx self).stash = (s.ctx self).stash ∧
+      ∀ e, (e ∈ (s.ctx self).sysQ ∨ e ∈ (s.ctx self).userQ ∨ e ∈ l) →
+        (e ∈ ((l.foldl (fun acc e => enqueue acc self e) s).ctx self).sysQ ∨
+         e ∈ ((l.foldl (fun acc e => enqueue acc self e) s).ctx self).userQ) := by
+  induction l with
+  | nil =>
+    intro s hv _ _
+    refine ⟨Ext.refl hv, rfl, rfl, fun e he => ?_⟩
+    rcases he with h | h | h
+    · exact Or.inl h
+    · exact Or.inr h
+    · cases h
+  | cons e0 t ih =>
+    intro s hv hself hl
+    simp only [List.foldl_cons]
+    have h1 := ext_enqueue self e0 hv hself (hl e0 (by simp))
+    obtain ⟨ha, hx, hb, hc⟩ := ih (enqueue s self e0) h1.valid hself (fun e he => hl e (by simp [he]))
+    refine ⟨h1.trans ha, hx, by rw [hb, enqueue_stash], fun e he => ?_⟩
+    apply hc
+    rcases he with h | h | h
+    · rcases enqueue_queued s self e0 e (Or.inl h) with h' | h'
+      · exact Or.inl h'
+      · exact Or.inr (Or.inl h')
+    · rcases enqueue_queued s self e0 e (Or.inr (Or.inl h)) with h' | h'
+      · exact Or.inl h'
+      · exact Or.inr (Or.inl h')
+    · simp only [List.mem_cons] at h
+      rcases h with h | h
+      · rcases enqueue_queued s self e0 e (Or.inr (Or.inr h)) with h' | h'
+        · exact Or.inl h'
+        · exact Or.inr (Or.inl h')
+      · exact Or.inr (Or.inr h)
+
+/-- `Unstash`: the first `cnt` stashed envelopes go back to the actor's own queues. -/
+theorem ext_unstash {s : Sys} (self : Cid) (cnt : Nat) (hv : Valid s) (hself : self < s.n) :
+    Ext s (upd (((s.ctx self).stash.take cnt).foldl (fun acc e => enqueue acc self e) s) self
+      (fun x => { x with stash := x.stash.drop cnt })) := by
+  have hx := hv.ctx self
+  obtain ⟨ha, hnx, hb, hc⟩ := foldl_enqueue_facts self ((s.ctx self).stash.take cnt) s hv hself
+    (fun e he => hx.envs e (mem_mail.mpr (Or.inr (Or.inr (List.mem_of_mem_take he)))))
+  generalize ((s.ctx self).stash.take cnt).foldl (fun acc e => enqueue acc self e) s = s' at ha hnx hb hc
+  have hx' := ha.valid.ctx self
+  have hv2 : Valid (upd s' self (fun x => { x with stash := x.stash.drop cnt })) := by
+    apply valid_upd self _ ha.valid
+    refine ⟨hx'.parent, hx'.children, hx'.watchers, fun e he => ?_, fun h => ?_⟩
+    · apply hx'.envs e
+      rcases mem_mail.mp he with h | h | h
+      · exact mem_mail.mpr (Or.inl h)
+      · exact mem_mail.mpr (Or.inr (Or.inl h))
+      · exact mem_mail.mpr (Or.inr (Or.inr (List.mem_of_mem_drop h)))
+    · exact absurd (Nat.lt_of_lt_of_le hself ha.n_le) (Nat.not_lt.mpr h)
+  refine ⟨hv2, ha.n_le, ha.next_le, fun c e he => ?_, ha.dl,
+    fun i h1 h2 => absurd (show i < s.nextEnv by rw [← hnx]; exact h2) (Nat.not_lt.mpr h1)⟩
+  by_cases hcs : c = self
+  · subst hcs
+    rw [upd_ctx_self]
+    rcases mem_mail.mp he with h | h | h
+    · rcases hc e (Or.inl h) with h' | h'
+      · exact mem_mail.mpr (Or.inl h')
+      · exact mem_mail.mpr (Or.inr (Or.inl h'))
+    · rcases hc e (Or.inr (Or.inl h)) with h' | h'
+      · exact mem_mail.mpr (Or.inl h')
+      · exact mem_mail.mpr (Or.inr (Or.inl h'))
+    · have hsplit : e ∈ (s.ctx c).stash.take cnt ∨ e ∈ (s.ctx c).stash.drop cnt := by
+        have : e ∈ (s.ctx c).stash.take cnt ++ (s.ctx c).stash.drop cnt := by rw [List.take_append_drop]; exact h
+        exact List.mem_append.mp this
+      rcases hsplit with h1 | h1
+      · rcases hc e (Or.inr (Or.inr h1)) with h' | h'
+        · exact mem_mail.mpr (Or.inl h')
+        · exact mem_mail.mpr (Or.inr (Or.inl h'))
+      · exact mem_mail.mpr (Or.inr (Or.inr (by simp only; rw [hb]; exact h1)))
+  · rw [upd_ctx_other _ _ _ _ hcs]; exact ha.keep c e he
+
+theorem mem_esTargets {subs : Subs} {ty : Nat} {t : Cid} (h : t ∈ esTargets subs ty) : ∃ e ∈ subs, e.2.2 = t := by
+  unfold esTargets at h
+  obtain ⟨e, he, rfl⟩ := List.mem_map.mp h
+  exact ⟨e, (List.mem_filter.mp he).1, rfl⟩
+
+theorem ext_runActions (self : Cid) (cur : Env) (acts : List Action) :
+    ∀ s, Valid s → CurOK s self cur → Ext s (runActions s self cur acts).s := by
+  induction acts with
+  | nil => intro s hv _; exact Ext.refl hv
+  | cons a rest ih =>
+    intro s hv hc
+    have step : ∀ s1, Ext s s1 → Ext s (runActions s1 self cur rest).s :=
+      fun s1 h1 => h1.trans (ih s1 h1.valid (hc.ext h1))
+    have hsend : ∀ d, some self = some d → d < s.n := fun d hd => by cases hd; exact hc.self_lt
+    cases a with
+    | panic => exact Ext.refl hv
+    | tell t k =>
+      simp only [runActions]
+      exact step _ (ext_tell false (some self) _ (.user k) hv (evalTarget_ok self cur t hv hc) hsend trivial rfl)
+    | spawn name script kind decisions hooks =>
+      simp only [runActions]; exact step _ (ext_actorOf self name script kind hooks decisions hv hc.self_lt)
+    | kill t poison =>
+      simp only [runActions]
+      exact step _ (ext_tell (!poison) (some self) _ (.onKill poison) hv (evalTarget_ok self cur t hv hc) hsend trivial rfl)
+    | stash =>
+      simp only [runActions]
+      apply step
+      have hx := hv.ctx self
+      apply ext_upd self _ hv
+      · refine ⟨hx.parent, hx.children, hx.watchers, fun e he => ?_, fun h => absurd hc.self_lt (Nat.not_lt.mpr h)⟩
+        rcases mem_mail.mp he with h | h | h
+        · exact hx.envs e (mem_mail.mpr (Or.inl h))
+        · exact hx.envs e (mem_mail.mpr (Or.inr (Or.inl h)))
+        · simp only [List.mem_append, List.mem_singleton] at h
+          rcases h with h | h
+          · exact hx.envs e (mem_mail.mpr (Or.inr (Or.inr h)))
+          · rw [h]; exact hc.env
+      · intro e he
+        rcases mem_mail.mp he with h | h | h
+        · exact mem_mail.mpr (Or.inl h)
+        · exact mem_mail.mpr (Or.inr (Or.inl h))
+        · exact mem_mail.mpr (Or.inr (Or.inr (by simp [h])))
+    | unstash n =>
+      simp only [runActions]
+      exact step _ (ext_unstash self _ hv hc.self_lt)
+    | watch t =>
+      simp only [runActions]
+      exact step _ (ext_tell true (some self) _ .watch hv (evalTarget_ok self cur t hv hc) hsend trivial rfl)
+    | unwatch t =>
+      simp only [runActions]
+      exact step _ (ext_tell true (some self) _ .unwatch hv (evalTarget_ok self cur t hv hc) hsend trivial rfl)
+    | become sc => simp only [runActions]; exact step _ (ext_upd_same self _ hv (fun _ => rfl))
+    | unbecome => simp only [runActions]; exact step _ (ext_upd_same self _ hv (fun _ => rfl))
+    | sub ty =>
+      simp only [runActions]
+      apply step
+      apply ext_subs _ hv
+      intro e he
+      unfold esSub at he
+      split at he
+      · exact hv.subs e he
+      · simp only [List.mem_append, List.mem_singleton] at he
+        rcases he with he | he
+        · exact hv.subs e he
+        · rw [he]; exact hc.self_lt
+    | unsub ty =>
+      simp only [runActions]
+      exact step _ (ext_subs _ hv (fun e he => hv.subs e (List.mem_filter.mp he).1))
+    | unsubAll =>
+      simp only [runActions]
+      exact step _ (ext_subs _ hv (fun e he => hv.subs e (List.mem_filter.mp he).1))
+    | pub ty =>
+      simp only [runActions]
+      apply step
+      have h0 : Ext s { s with nextPub := s.nextPub + 1 } := ext_rec _ hv rfl rfl rfl rfl rfl rfl rfl
+      refine h0.trans (ext_foldl_tell (esTargets s.subs ty) false (some 0) (.event ty s.nextPub) h0.valid ?_ ?_ trivial rfl)
+      · intro t ht
+        obtain ⟨e, he, rfl⟩ := mem_esTargets ht
+        exact hv.subs e he
+      · intro d hd; cases hd; exact hv.pos
+    | sched kind ref k => simp only [runActions]; exact step _ (ext_schedule self ref hv)
+    | cancel ref =>
+      simp only [runActions]
+      split
+      · exact step _ (ext_say _ hv)
+      · rename_i key _
+        apply step
+        have h0 : Ext s { s with jobTable := s.jobTable.filter (fun e => e.1 ≠ key) } := ext_rec _ hv rfl rfl rfl rfl rfl rfl rfl
+        have h1 := h0.trans (ext_upd_same self (fun x => { x with jobs := x.jobs.filter (fun e => e.1 ≠ ref) }) h0.valid (fun _ => rfl))
+        exact h1.trans (ext_say _ h1.valid)
+    | schedClear => simp only [runActions]; exact step _ (ext_clearJobs self hv)
+    | cron valid ref =>
+      simp only [runActions]
+      split
+      · exact step _ (ext_schedule self ref hv)
+      · exact step _ (ext_say _ hv)
+
+/-- A state that differs only by dropping registry / subscription entries (and in fields the
+invariant does not look at). -/
+theorem ext_shrink {s : Sys} (s' : Sys) (hv : Valid s) (h1 : s'.n = s.n) (h2 : s'.ctx = s.ctx) (h3 : s'.nextEnv = s.nextEnv)
+    (h4 : ∀ e ∈ s'.registry, e ∈ s.registry) (h5 : s'.refs = s.refs) (h6 : ∀ e ∈ s'.subs, e ∈ s.subs)
+    (h7 : s'.deadLetters = s.deadLetters) : Ext s s' :=
+  ext_of_valid ⟨by rw [h1]; exact hv.pos, by rw [h1, h2, h3]; exact hv.ctx, fun e he => by rw [h1]; exact hv.reg e (h4 e he),
+    by rw [h1, h5]; exact hv.refs, fun e he => by rw [h1]; exact hv.subs e (h6 e he), by rw [h3, h7]; exact hv.dls⟩ h1 h2 h3 h7
+
+/-- The message shown to the behaviour names only ids that exist. -/
+def MsgIdOK (s : Sys) (m : Msg) : Prop := ∀ x d, m = .deadLetter x true d → x < s.nextEnv
+
+theorem ext_behave {s : Sys} (self : Cid) (beh : Nat) (cur : Env) (m : Msg) (hv : Valid s) (hc : CurOK s self cur)
+    (hm : MsgIdOK s m) : Ext s (behave s self beh cur m).s := by
+  unfold behave
+  simp only
+  split
+  · exact Ext.refl hv
+  · split
+    · simp only
+      unfold guardBehave
+      split
+      · split
+        · exact ext_rec _ hv rfl rfl rfl rfl rfl rfl rfl
+        · exact Ext.refl hv
+      · rename_i e isUser d
+        have hv1 : Valid { s with deadLetters := if isUser = true then s.deadLetters ++ [e] else s.deadLetters } := by
+          refine ⟨hv.pos, hv.ctx, hv.reg, hv.refs, hv.subs, fun i hi => ?_⟩
+          simp only at hi
+          split at hi
+          · rename_i hu
+            simp only [List.mem_append, List.mem_singleton] at hi
+            rcases hi with hi | hi
+            · exact hv.dls i hi
+            · rw [hi]; exact hm e d (by rw [hu])
+          · exact hv.dls i hi
+        have h1 : Ext s { s with deadLetters := if isUser = true then s.deadLetters ++ [e] else s.deadLetters } := by
+          refine ⟨hv1, Nat.le_refl _, Nat.le_refl _, fun _ _ h => h, fun i hi => ?_, fun i h1 h2 => absurd h2 (Nat.not_lt.mpr h1)⟩
+          simp only
+          split
+          · exact List.mem_append_left _ hi
+          · exact hi
+        exact h1.trans (ext_say _ hv1)
+      · exact Ext.refl hv
+    · split
+      · exact Ext.refl hv
+      · have h1 := ext_say (s := s) s!"seen:{self}:{(s.ctx self).inc}:{‹Nat›}" hv
+        exact h1.trans (ext_runActions self cur _ _ h1.valid (hc.ext h1))
+
+theorem ext_execRecover {s : Sys} (self : Cid) (beh : Nat) (cur : Env) (m : Msg) (hv : Valid s) (hc : CurOK s self cur)
+    (hm : MsgIdOK s m) : Ext s (execRecover s self beh cur m) := by
+  unfold execRecover
+  have hb := ext_behave self beh cur m hv hc hm
+  have hf := hb.trans (ext_failed self hb.valid (Nat.lt_of_lt_of_le hc.self_lt hb.n_le))
+  simp only
+  split
+  · split
+    · exact hb
+    · split
+      · exact hb
+      · exact hf
+    · exact hf
+  · exact hb
+
+theorem ext_execSwallow {s : Sys} (self : Cid) (beh : Nat) (cur : Env) (m : Msg) (hv : Valid s) (hc : CurOK s self cur)
+    (hm : MsgIdOK s m) : Ext s (execSwallow s self beh cur m) := ext_behave self beh cur m hv hc hm
+
+theorem ext_cleanup {s : Sys} (self : Cid) (hv : Valid s) (hself : self < s.n) : Ext s (cleanup s self) := by
+  unfold cleanup
+  simp only
+  have h0 : Ext s (unregister { s with subs := esUnsubAll s.subs (s.ctx self).path } (s.ctx self).path) :=
+    ext_shrink _ hv rfl rfl rfl (fun e he => (List.mem_filter.mp he).1) rfl (fun e he => (List.mem_filter.mp he).1) rfl
+  have hsend : ∀ (x : Sys), s.n ≤ x.n → ∀ d, some self = some d → d < x.n :=
+    fun x hx d hd => by cases hd; exact Nat.lt_of_lt_of_le hself hx
+  have h1 := h0.trans (ext_tellAll (s.ctx self).watchers true (some self) (.onKilled self) h0.valid
+    (fun t ht => (hv.ctx self).watchers t ht) (hsend _ h0.n_le) trivial rfl)
+  split
+  · rename_i p hp
+    have h2 := h1.trans (ext_tell true (some self) (.own p) (.onKilled self) h1.valid
+      (Nat.lt_of_lt_of_le ((hv.ctx self).parent p hp) h1.n_le) (hsend _ h1.n_le) trivial rfl)
+    have h3 := h2.trans (ext_say s!"killed-event:{self}" h2.valid)
+    exact h3.trans (ext_upd_same self (fun x => { x with paused := false }) h3.valid (fun _ => rfl))
+  · have h3 := h1.trans (ext_say s!"killed-event:{self}" h1.valid)
+    exact h3.trans (ext_upd_same self (fun x => { x with paused := false }) h3.valid (fun _ => rfl))
+
+theorem curOK_synthetic {s : Sys} (self : Cid) (hself : self < s.n) (sys : Bool) (m : Msg)
+    (hm : msgOK s.n m) (hdl : isDL m = false) (hu : ∀ k, m ≠ .user k) :
+    CurOK s self { id := 0, sys := sys, sender := some self, msg := m } :=
+  ⟨hself, envOK_plain sys (some self) m (fun d hd => by cases hd; exact hself) hm hdl hu⟩
+
+theorem msgIdOK_plain (s : Sys) (m : Msg) (hdl : isDL m = false) : MsgIdOK s m := by
+  intro x d h; rw [h] at hdl; simp [isDL] at hdl
+
+theorem ext_handleRestart {s : Sys} (self : Cid) (hv : Valid s) (hself : self < s.n) : Ext s (handleRestart s self) := by
+  unfold handleRestart
+  simp only
+  have h1 := ext_upd_same self (fun x => { x with behaviors := [x.script] }) hv (fun _ => rfl)
+  split
+  · have h2 := h1.trans (ext_upd_same self (fun x => { x with zombie := true, paused := false }) h1.valid (fun _ => rfl))
+    exact h2.trans (ext_say _ h2.valid)
+  · have h2 := h1.trans (ext_upd_same self (fun x => { x with restarting := none, state := .running, inc := x.inc + 1 }) h1.valid (fun _ => rfl))
+    split
+    · have h3 := h2.trans (ext_upd_same self (fun x => { x with paused := false }) h2.valid (fun _ => rfl))
+      have h4 := h3.trans (ext_say s!"restarted:{self}" h3.valid)
+      exact h4.trans (ext_execRecover self _ _ .onLaunch h4.valid
+        (curOK_synthetic self (Nat.lt_of_lt_of_le hself h4.n_le) true .onLaunch trivial rfl (by intro k h; cases h))
+        (msgIdOK_plain _ _ rfl))
+    · have h3 := h2.trans (ext_tell true (some self)
+        (match (s.ctx self).parent with | some p => Target.own p | none => Target.nobody) .onLaunch h2.valid
+        (parentTarget_ok self hv) (fun d hd => by cases hd; exact hself) trivial rfl)
+      have h4 := h3.trans (ext_upd_same self (fun x => { x with paused := false }) h3.valid (fun _ => rfl))
+      exact h4.trans (ext_say _ h4.valid)
+
+theorem curOK_retag {s : Sys} {self : Cid} {cur : Env} (hc : CurOK s self cur) (sys : Bool) (m : Msg)
+    (hm : msgOK s.n m) (hdl : isDL m = false) (hu : ∀ k, m ≠ .user k) :
+    CurOK s self { cur with sys := sys, msg := m } :=
+  ⟨hc.self_lt, ⟨hc.env.sender, hm, fun _ => hdl, fun i hi => by
+    rw [carries_other i _ hu hdl] at hi; cases hi⟩⟩
+
+theorem curOK_retag' {s : Sys} {self : Cid} {cur : Env} (hc : CurOK s self cur) (m : Msg)
+    (hm : msgOK s.n m) (hdl : isDL m = false) (hu : ∀ k, m ≠ .user k) :
+    CurOK s self { cur with msg := m } :=
+  ⟨hc.self_lt, ⟨hc.env.sender, hm, fun _ => hdl, fun i hi => by
+    rw [carries_other i _ hu hdl] at hi; cases hi⟩⟩
+
+theorem ext_onKilled {s : Sys} (self : Cid) (beh : Nat) (cur : Env) (who : Cid) (hv : Valid s) (hc : CurOK s self cur) :
+    Ext s (onKilled s self beh cur who) := by
+  unfold onKilled
+  simp only
+  split
+  · exact ext_cleanup self hv hc.self_lt
+  · have h1 : Ext s (if who ≠ self then
+        execRecover (upd s self (fun x => { x with children := x.children.filter (· ≠ who) })) self beh cur (.onKilled who)
+        else s) := by
+      split
+      · have hx := hv.ctx self
+        have h0 : Ext s (upd s self (fun x => { x with children := x.children.filter (· ≠ who) })) :=
+          ext_upd self _ hv ⟨hx.parent, fun k hk => hx.children k (List.mem_filter.mp hk).1, hx.watchers, hx.envs, hx.blank⟩
+            (fun e he => he)
+        exact h0.trans (ext_execRecover self beh cur (.onKilled who) h0.valid (hc.ext h0) (msgIdOK_plain _ _ rfl))
+      · exact Ext.refl hv
+    generalize (if who ≠ self then
+        execRecover (upd s self (fun x => { x with children := x.children.filter (· ≠ who) })) self beh cur (.onKilled who)
+        else s) = s1 at h1 ⊢
+    have hc1 := hc.ext h1
+    split
+    · exact h1
+    · have h2 := h1.trans (ext_upd_same self (fun x => { x with state := .killed }) h1.valid (fun _ => rfl))
+      have hc2 : CurOK (upd s1 self (fun x => { x with state := .killed })) self { cur with sys := true, msg := .onKilled self } :=
+        curOK_retag (hc.ext h2) true (.onKilled self) trivial rfl (by intro k h; cases h)
+      cases hr : (s1.ctx self).restarting.isSome with
+      | true =>
+        simp only [if_true]
+        have h3 := h2.trans (ext_execSwallow self beh _ (.onKilled self) h2.valid hc2 (msgIdOK_plain _ _ rfl))
+        have h4 := h3.trans (ext_clearJobs self h3.valid)
+        exact h4.trans (ext_handleRestart self h4.valid (Nat.lt_of_lt_of_le hc.self_lt h4.n_le))
+      | false =>
+        simp only [Bool.false_eq_true, if_false]
+        have h3 := h2.trans (ext_execRecover self beh _ (.onKilled self) h2.valid hc2 (msgIdOK_plain _ _ rfl))
+        have h4 := h3.trans (ext_cleanup self h3.valid (Nat.lt_of_lt_of_le hc.self_lt h3.n_le))
+        exact h4.trans (ext_clearJobs self h4.valid)
+
+theorem ext_doKill {s : Sys} (self : Cid) (beh : Nat) (cur : Env) (poison : Bool) (hv : Valid s) (hc : CurOK s self cur) :
+    Ext s (doKill s self beh cur poison) := by
+  unfold doKill
+  simp only
+  have h1 := ext_foldl_tell (s.ctx self).children (!poison) (some self) (.onKill poison) hv
+    (fun t ht => (hv.ctx self).children t ht) (fun d hd => by cases hd; exact hc.self_lt) trivial rfl
+  have hc1 : CurOK _ self { cur with msg := .onKill poison } :=
+    curOK_retag' (hc.ext h1) (.onKill poison) trivial rfl (by intro k h; cases h)
+  have h2 : Ext s (if (s.ctx self).restarting.isSome = true then
+      execSwallow ((s.ctx self).children.foldl (fun acc ch => tell acc (!poison) (some self) (.own ch) (.onKill poison)) s)
+        self beh { cur with msg := .onKill poison } (.onKill poison)
+      else execRecover ((s.ctx self).children.foldl (fun acc ch => tell acc (!poison) (some self) (.own ch) (.onKill poison)) s)
+        self beh { cur with msg := .onKill poison } (.onKill poison)) := by
+    split
+    · exact h1.trans (ext_execSwallow self beh _ _ h1.valid hc1 (msgIdOK_plain _ _ rfl))
+    · exact h1.trans (ext_execRecover self beh _ _ h1.valid hc1 (msgIdOK_plain _ _ rfl))
+  exact h2.trans (ext_onKilled self beh _ self h2.valid
+    (curOK_retag' (hc.ext h2) (.onKill poison) trivial rfl (by intro k h; cases h)))
+
+theorem mem_allTargets {chain : List (Cid × List Cid)} {t : Cid} (h : t ∈ (chain.map (·.2)).flatten) :
+    ∃ p ∈ chain, t ∈ p.2 := by
+  obtain ⟨l, hl, ht⟩ := List.mem_flatten.mp h
+  obtain ⟨p, hp, rfl⟩ := List.mem_map.mp hl
+  exact ⟨p, hp, ht⟩
+
+theorem ext_onSupervise_core {s : Sys} (self fc : Cid) (targets allT : List Cid) (chain' : List (Cid × List Cid))
+    (decision : Nat) (s0 : Sys) (h0 : Ext s s0) (hv : Valid s) (hself : self < s.n)
+    (htg : ∀ t ∈ targets, t < s.n) (hall : ∀ t ∈ allT, t < s.n) (hch' : chainOK s.n chain') :
+    Ext s (
+      let s1 := say s0 s!"decide:{self}:{fc}:{decision}"
+      let s2 := tellAll s1 true (some self) targets .cmdPause
+      if decision = 1 then tellAll s2 true (some self) targets (.restart false)
+      else if decision = 2 then
+        tellAll (tellAll s2 false (some self) targets (.restart true)) true (some self) allT .cmdResume
+      else if decision = 3 then tellAll s2 true (some self) targets (.onKill false)
+      else if decision = 4 then
+        tellAll (tellAll s2 false (some self) targets (.onKill true)) true (some self) allT .cmdResume
+      else if decision = 5 then tellAll s2 true (some self) allT .cmdResume
+      else if decision = 6 then
+        let s3 := upd s2 self (fun x => { x with paused := true })
+        let t : Target := match (s.ctx self).parent with | some p => .own p | none => .nobody
+        tell s3 true (some self) t (.supervise ((self, []) :: chain') [])
+      else s2) := by
+  simp only
+  have h1 := h0.trans (ext_say s!"decide:{self}:{fc}:{decision}" h0.valid)
+  have hsend : ∀ (x : Sys), s.n ≤ x.n → ∀ d, some self = some d → d < x.n :=
+    fun x hx d hd => by cases hd; exact Nat.lt_of_lt_of_le hself hx
+  have lift : ∀ (x : Sys) (l : List Cid), s.n ≤ x.n → (∀ t ∈ l, t < s.n) → ∀ t ∈ l, t < x.n :=
+    fun x l hx hl t ht => Nat.lt_of_lt_of_le (hl t ht) hx
+  have h2 := h1.trans (ext_tellAll targets true (some self) .cmdPause h1.valid (lift _ _ h1.n_le htg) (hsend _ h1.n_le) trivial rfl)
+  split
+  · exact h2.trans (ext_tellAll targets true (some self) (.restart false) h2.valid (lift _ _ h2.n_le htg) (hsend _ h2.n_le) trivial rfl)
+  · split
+    · have h3 := h2.trans (ext_tellAll targets false (some self) (.restart true) h2.valid (lift _ _ h2.n_le htg) (hsend _ h2.n_le) trivial rfl)
+      exact h3.trans (ext_tellAll allT true (some self) .cmdResume h3.valid (lift _ _ h3.n_le hall) (hsend _ h3.n_le) trivial rfl)
+    · split
+      · exact h2.trans (ext_tellAll targets true (some self) (.onKill false) h2.valid (lift _ _ h2.n_le htg) (hsend _ h2.n_le) trivial rfl)
+      · split
+        · have h3 := h2.trans (ext_tellAll targets false (some self) (.onKill true) h2.valid (lift _ _ h2.n_le htg) (hsend _ h2.n_le) trivial rfl)
+          exact h3.trans (ext_tellAll allT true (some self) .cmdResume h3.valid (lift _ _ h3.n_le hall) (hsend _ h3.n_le) trivial rfl)
+        · split
+          · exact h2.trans (ext_tellAll allT true (some self) .cmdResume h2.valid (lift _ _ h2.n_le hall) (hsend _ h2.n_le) trivial rfl)
+          · split
+            · have h3 := h2.trans (ext_upd_same self (fun x => { x with paused := true }) h2.valid (fun _ => rfl))
+              refine h3.trans (ext_tell true (some self) _ (.supervise ((self, []) :: chain') []) h3.valid ?_ (hsend _ h3.n_le) ?_ rfl)
+              · have := parentTarget_ok self hv
+                revert this
+                split
+                · intro hp; exact Nat.lt_of_lt_of_le hp h3.n_le
+                · intro _; trivial
+              · intro p hp
+                simp only [List.mem_cons] at hp
+                rcases hp with hp | hp
+                · rw [hp]; exact ⟨Nat.lt_of_lt_of_le hself h3.n_le, fun t ht => by cases ht⟩
+                · exact chainOK_mono hch' h3.n_le p hp
+            · exact h2
+
+theorem ext_onSupervise {s : Sys} (self : Cid) (chain : List (Cid × List Cid)) (hv : Valid s) (hself : self < s.n)
+    (hch : chainOK s.n chain) : Ext s (onSupervise s self chain) := by
+  unfold onSupervise
+  have h0 : Ext s (if (s.ctx self).strat = 0 then s else upd s self (fun x => { x with decIdx := x.decIdx + 1 })) := by
+    split
+    · exact Ext.refl hv
+    · exact ext_upd_same self _ hv (fun _ => rfl)
+  cases chain with
+  | nil =>
+    have htg : ∀ t ∈ (if (s.ctx self).strat = 0 ∨ (s.ctx self).strat = 1 then [self] else (s.ctx self).children), t < s.n := by
+      intro t ht
+      split at ht
+      · simp only [List.mem_singleton] at ht; rw [ht]; exact hself
+      · exact (hv.ctx self).children t ht
+    exact ext_onSupervise_core self self _ [] [] _ _ h0 hv hself htg (fun t ht => by cases ht) (fun p hp => by cases hp)
+  | cons p rest =>
+    obtain ⟨f, x⟩ := p
+    have hf : f < s.n := (hch (f, x) (by simp)).1
+    have htg : ∀ t ∈ (if (s.ctx self).strat = 0 ∨ (s.ctx self).strat = 1 then [f] else (s.ctx self).children), t < s.n := by
+      intro t ht
+      split at ht
+      · simp only [List.mem_singleton] at ht; rw [ht]; exact hf
+      · exact (hv.ctx self).children t ht
+    have hch' : chainOK s.n ((f, if (s.ctx self).strat = 0 ∨ (s.ctx self).strat = 1 then [f] else (s.ctx self).children) :: rest) := by
+      intro p hp
+      simp only [List.mem_cons] at hp
+      rcases hp with hp | hp
+      · rw [hp]; exact ⟨hf, htg⟩
+      · exact hch p (by simp [hp])
+    refine ext_onSupervise_core self f _ _ _ _ _ h0 hv hself htg (fun t ht => ?_) hch'
+    obtain ⟨p, hp, htp⟩ := mem_allTargets ht
+    exact (hch' p hp).2 t htp
+
+theorem msgIdOK_of_env {s : Sys} {self : Cid} {e : Env} (hc : CurOK s self e) : MsgIdOK s e.msg := by
+  intro x d hm
+  exact hc.env.ids x (by simp [carries, hm])
+
+theorem ext_handle {s : Sys} (self : Cid) (e : Env) (hv : Valid s) (hc : CurOK s self e) : Ext s (handle s self e) := by
+  unfold handle
+  simp only
+  have hx := hv.ctx self
+  split
+  · split
+    · exact Ext.refl hv
+    · exact ext_deadLetter e hv hc.env.ids
+  · split
+    · exact ext_execRecover _ _ _ _ hv hc (msgIdOK_plain _ _ rfl)
+    · split
+      · exact ext_doKill _ _ _ _ hv hc
+      · split
+        · have h1 := ext_upd_same self (fun x => { x with state := .killing }) hv (fun _ => rfl)
+          exact h1.trans (ext_doKill _ _ _ _ h1.valid (hc.ext h1))
+        · exact Ext.refl hv
+    · exact ext_onKilled _ _ _ _ hv hc
+    · rename_i chain sc hm
+      have : chainOK s.n chain := by
+        have := hc.env.msg
+        rw [hm] at this; exact this
+      exact ext_onSupervise self chain hv hc.self_lt this
+    · exact ext_upd_same self _ hv (fun _ => rfl)
+    · exact ext_upd_same self _ hv (fun _ => rfl)
+    · rename_i poison hm
+      have h1 := ext_upd_same self (fun x => { x with state := .killing, restarting := some poison }) hv (fun _ => rfl)
+      exact h1.trans (ext_doKill _ _ _ _ h1.valid (hc.ext h1))
+    · split
+      · rename_i w hw
+        have hupd : Ext s (upd s self (fun x => { x with watchers := x.watchers ++ [w] })) := by
+          apply ext_upd self _ hv
+          · refine ⟨hx.parent, hx.children, fun w' hw' => ?_, hx.envs, hx.blank⟩
+            simp only [List.mem_append, List.mem_singleton] at hw'
+            rcases hw' with h | h
+            · exact hx.watchers w' h
+            · rw [h]; exact hc.env.sender w hw
+          · intro e' he'; exact he'
+        repeat' split
+        all_goals first | exact Ext.refl hv | exact hupd
+      · exact Ext.refl hv
+    · split
+      · apply ext_upd self _ hv
+        · exact ⟨hx.parent, hx.children, fun w' hw' => hx.watchers w' (List.mem_filter.mp hw').1, hx.envs, hx.blank⟩
+        · intro e' he'; exact he'
+      · exact Ext.refl hv
+    · exact ext_execRecover _ _ _ _ hv hc (by rename_i k hm; rw [← hm]; exact msgIdOK_of_env hc)
+    · exact ext_execRecover _ _ _ _ hv hc (by rename_i x u d hm; rw [← hm]; exact msgIdOK_of_env hc)
+    · exact ext_execRecover _ _ _ _ hv hc (by rename_i ty pid hm; rw [← hm]; exact msgIdOK_of_env hc)
+
+/-- The envelope the mailbox of a context hands out next (system queue first, user queue only
+when not paused). -/
+def nextMail (x : Ctx) : Option Env :=
+  match x.sysQ with
+  | e :: _ => some e
+  | [] => if x.paused then none else x.userQ.head?
+
+/-- The state after the mailbox has handed out its next envelope. -/
+def popMail (s : Sys) (c : Cid) : Sys :=
+  match (s.ctx c).sysQ with
+  | _ :: rest => upd s c (fun y => { y with sysQ := rest })
+  | [] =>
+    match (s.ctx c).userQ with
+    | _ :: rest => upd s c (fun y => { y with userQ := rest })
+    | [] => s
+
+theorem deliver_eq (s : Sys) (c : Cid) :
+    deliver s c = (nextMail (s.ctx c)).map (fun e => handle (popMail s c) c e) := by
+  unfold deliver nextMail popMail
+  simp only
+  cases hs : (s.ctx c).sysQ with
+  | cons e rest => simp
+  | nil =>
+    simp only
+    by_cases hp : (s.ctx c).paused = true
+    · simp [hp]
+    · cases hu : (s.ctx c).userQ with
+      | nil => simp [hp]
+      | cons e rest => simp [hp]
+
+theorem nextMail_mem {x : Ctx} {e : Env} (h : nextMail x = some e) : e ∈ mail x := by
+  unfold nextMail at h
+  split at h
+  · rename_i e' rest hq; cases h; exact mem_mail.mpr (Or.inl (by simp [hq]))
+  · split at h
+    · cases h
+    · exact mem_mail.mpr (Or.inr (Or.inl (List.mem_of_head? h)))
+
+/-- Popping keeps the state well-formed; everything but (one copy of) the popped envelope stays. -/
+theorem pop_ok {s : Sys} (c : Cid) (e : Env) (hv : Valid s) (h : nextMail (s.ctx c) = some e) :
+    Valid (popMail s c) ∧ CurOK (popMail s c) c e ∧ (popMail s c).n = s.n ∧ (popMail s c).nextEnv = s.nextEnv ∧
+    (popMail s c).deadLetters = s.deadLetters ∧
+    (∀ d e', e' ∈ mail (s.ctx d) → (d = c ∧ e' = e) ∨ e' ∈ mail ((popMail s c).ctx d)) := by
+  have hx := hv.ctx c
+  have hmem := nextMail_mem h
+  have hcn : c < s.n := by
+    by_cases hlt : c < s.n
+    · exact hlt
+    · rw [hx.blank (Nat.not_lt.mp hlt)] at hmem; cases hmem
+  have hcur : CurOK s c e := ⟨hcn, hx.envs e hmem⟩
+  unfold nextMail at h
+  split at h
+  · rename_i e0 rest hq
+    cases h
+    have hpm : popMail s c = upd s c (fun y => { y with sysQ := rest }) := by simp only [popMail, hq]
+    rw [hpm]
+    have hv' : Valid (upd s c (fun y => { y with sysQ := rest })) := by
+      apply valid_upd c _ hv
+      refine ⟨hx.parent, hx.children, hx.watchers, fun e' he' => hx.envs e' ?_, fun hh => absurd hcn (Nat.not_lt.mpr hh)⟩
+      rcases mem_mail.mp he' with h1 | h1 | h1
+      · exact mem_mail.mpr (Or.inl (by rw [hq]; exact List.mem_cons_of_mem _ h1))
+      · exact mem_mail.mpr (Or.inr (Or.inl h1))
+      · exact mem_mail.mpr (Or.inr (Or.inr h1))
+    refine ⟨hv', ⟨hcn, hcur.env⟩, rfl, rfl, rfl, fun d e' he' => ?_⟩
+    by_cases hd : d = c
+    · subst hd
+      rw [upd_ctx_self]
+      rcases mem_mail.mp he' with h1 | h1 | h1
+      · rw [hq] at h1
+        simp only [List.mem_cons] at h1
+        rcases h1 with h1 | h1
+        · exact Or.inl ⟨rfl, h1⟩
+        · exact Or.inr (mem_mail.mpr (Or.inl h1))
+      · exact Or.inr (mem_mail.mpr (Or.inr (Or.inl h1)))
+      · exact Or.inr (mem_mail.mpr (Or.inr (Or.inr h1)))
+    · rw [upd_ctx_other _ _ _ _ hd]; exact Or.inr he'
+  · rename_i hq
+    split at h
+    · cases h
+    · cases hql : (s.ctx c).userQ with
+      | nil => rw [hql] at h; cases h
+      | cons a rest =>
+        rw [hql] at h
+        have hae : a = e := by simpa using h
+        subst hae
+        have hpm : popMail s c = upd s c (fun y => { y with userQ := rest }) := by simp only [popMail, hq, hql]
+        rw [hpm]
+        have hv' : Valid (upd s c (fun y => { y with userQ := rest })) := by
+          apply valid_upd c _ hv
+          refine ⟨hx.parent, hx.children, hx.watchers, fun e' he' => hx.envs e' ?_, fun hh => absurd hcn (Nat.not_lt.mpr hh)⟩
+          rcases mem_mail.mp he' with h1 | h1 | h1
+          · exact mem_mail.mpr (Or.inl h1)
+          · exact mem_mail.mpr (Or.inr (Or.inl (by rw [hql]; exact List.mem_cons_of_mem _ h1)))
+          · exact mem_mail.mpr (Or.inr (Or.inr h1))
+        refine ⟨hv', ⟨hcn, hcur.env⟩, rfl, rfl, rfl, fun d e' he' => ?_⟩
+        by_cases hd : d = c
+        · subst hd
+          rw [upd_ctx_self]
+          rcases mem_mail.mp he' with h1 | h1 | h1
+          · exact Or.inr (mem_mail.mpr (Or.inl h1))
+          · rw [hql] at h1
+            simp only [List.mem_cons] at h1
+            rcases h1 with h1 | h1
+            · exact Or.inl ⟨rfl, h1⟩
+            · exact Or.inr (mem_mail.mpr (Or.inr (Or.inl h1)))
+          · exact Or.inr (mem_mail.mpr (Or.inr (Or.inr h1)))
+        · rw [upd_ctx_other _ _ _ _ hd]; exact Or.inr he'
+
+theorem valid_init (f : Bool) : Valid (init f) := by
+  refine ⟨Nat.one_pos, fun c => ?_, fun e he => (by cases he), fun e he => (by cases he), fun e he => (by cases he),
+    fun i hi => (by cases hi)⟩
+  by_cases hc : c = 0
+  · subst hc
+    exact ⟨fun p hp => (by simp [init, rootCtx, blankCtx] at hp), fun k hk => (by simp [init, rootCtx, blankCtx] at hk),
+      fun w hw => (by simp [init, rootCtx, blankCtx] at hw), fun e he => (by simp [init, rootCtx, blankCtx, mail] at he),
+      fun _ => (by simp [init, rootCtx, blankCtx, mail])⟩
+  · exact ⟨fun p hp => (by simp [init, hc, blankCtx] at hp), fun k hk => (by simp [init, hc, blankCtx] at hk),
+      fun w hw => (by simp [init, hc, blankCtx] at hw), fun e he => (by simp [init, hc, blankCtx, mail] at he),
+      fun _ => (by simp [init, hc, blankCtx, mail])⟩
 
 end Vivid.ActorSys
